@@ -354,10 +354,10 @@ cross-entropy (sigmoid) last layer with `c ≥ 1` channels, `predict_proba` has 
 non-negative entries and rows summing to 1. -/
 theorem predict_proba_rows_sum_one (loss : LossKind) (n c : Nat) (hc : 0 < c) (e : Nat → Nat → ℝ) (i : Nat)
     (hi : i < n) :
-    (predictProba loss (actOutput (actOfLoss loss) (mk' n c e))).r = n ∧
-    (predictProba loss (actOutput (actOfLoss loss) (mk' n c e))).c = (if c = 1 then 2 else c) ∧
-    (∀ k, 0 ≤ (predictProba loss (actOutput (actOfLoss loss) (mk' n c e))).get i k) ∧
-    ∑ k ∈ range (if c = 1 then 2 else c), (predictProba loss (actOutput (actOfLoss loss) (mk' n c e))).get i k = 1 :=
+    (predictProba loss (actOutput (lossAct loss) (mk' n c e))).r = n ∧
+    (predictProba loss (actOutput (lossAct loss) (mk' n c e))).c = (if c = 1 then 2 else c) ∧
+    (∀ k, 0 ≤ (predictProba loss (actOutput (lossAct loss) (mk' n c e))).get i k) ∧
+    ∑ k ∈ range (if c = 1 then 2 else c), (predictProba loss (actOutput (lossAct loss) (mk' n c e))).get i k = 1 :=
   predictProba_distribution loss n c hc e i hi
 
 /-- **prediction_range.** `_compute_predictions` returns one label per node; with one channel it is the 0.5
@@ -386,5 +386,42 @@ theorem sampler_subset (indptr indices : List Nat) (nRow : Nat) (choice : List (
 
 /-- non-vacuity: degree 3, sample size 2, positions `[2, 0]` -/
 example : choiceOk 3 2 [2, 0] = true := by decide
+
+/-! ### configuration: which layer a name, an activation, a loss and a normalisation select
+(`isSage` / `isConv`: 'sage' / 'conv' occurs in the lower-cased layer name) -/
+
+/-- a GraphSAGE layer always normalises on the left and adds the self-embedding, whatever was asked -/
+theorem resolve_sage (isConv : Bool) (norm : Norm) (se : Bool) (c : Nat) (a : Act) :
+    resolveParsed true isConv (.ok a) none norm se c = .ok ({ norm := .left, selfEmb := true, act := a }, none) := rfl
+
+/-- a convolution layer keeps the requested normalisation and self-embedding flag -/
+theorem resolve_conv (norm : Norm) (se : Bool) (c : Nat) (a : Act) :
+    resolveParsed false true (.ok a) none norm se c = .ok ({ norm := norm, selfEmb := se, act := a }, none) := rfl
+
+/-- any other layer name is refused, and so is an unknown activation or loss -/
+theorem resolve_refusals (act : Except PyErr Act) (loss : Option (Except PyErr LossKind)) (norm : Norm) (se : Bool)
+    (c : Nat) (isSage isConv : Bool) (e : PyErr) :
+    resolveParsed false false act loss norm se c = .error .valueError ∧
+    (isSage = true ∨ isConv = true → resolveParsed isSage isConv (.error e) none norm se c = .error e) ∧
+    (isSage = true ∨ isConv = true → resolveParsed isSage isConv act (some (.error e)) norm se c = .error e) := by
+  refine ⟨rfl, ?_, ?_⟩
+  · intro h
+    rcases h with h | h <;> subst h <;> cases isSage <;> cases isConv <;> rfl
+  · intro h
+    rcases h with h | h <;> subst h <;> cases isSage <;> cases isConv <;> rfl
+
+/-- the last layer applies the activation of its loss (soft-max for cross-entropy, sigmoid for binary cross-entropy),
+and a cross-entropy loss on a single output channel is replaced by the binary cross-entropy (`check_loss`): the
+output of a fitted classifier is therefore a soft-max exactly when it has at least two channels and the
+cross-entropy loss -/
+theorem resolve_last_layer (isSage isConv : Bool) (h : isSage = true ∨ isConv = true) (act : Except PyErr Act)
+    (k : LossKind) (norm : Norm) (se : Bool) (c : Nat) :
+    ∃ cfg k', resolveParsed isSage isConv act (some (.ok k)) norm se c = .ok (cfg, some k') ∧
+      cfg.act = lossAct k' ∧ k' = (if k = .crossEntropy ∧ c = 1 then .binaryCrossEntropy else k) := by
+  have hk : (if (k == LossKind.crossEntropy && c == 1) = true then LossKind.binaryCrossEntropy else k)
+      = (if k = .crossEntropy ∧ c = 1 then .binaryCrossEntropy else k) := by
+    cases k <;> by_cases hc : c = 1 <;> simp [hc]
+  rcases h with h | h <;> subst h <;> cases isSage <;> cases isConv <;>
+    exact ⟨_, _, rfl, rfl, hk⟩
 
 end SkNet.C19
